@@ -1368,7 +1368,7 @@ PROPS = {
     "C19": {"families": ["wrapper"], "title": "reproc++ is a faithful mapping of the C API",
             "level_text": "TLC enumerates the option records, wrapper methods and C return values of spec/Wrapper.tla (every field with several pairwise distinguishable values) and predicts what the C layer must receive and what the wrapper must return; each point is executed through the real reproc++ sources over a recording mock of the C API and compared.",
             "technique": "TLA+ mapping model (Wrapper.tla) enumerated by TLC; every point replayed through reproc++ over a mock C API (conformance)"},
-    "C14": {"families": ["life", "faults", "free"], "title": "life cycle; misuse errors, never UB"},
+    "C14": {"families": ["life", "faults", "env", "free"], "title": "life cycle; misuse errors, never UB"},
     "C02": {"families": ["stream", "threads", "free"], "title": "stream fidelity"},
     # (thorough: the destroy scripts also run through the C++ destructor in C16's cxx family)
     "C15": {"families": ["destroy", "restart", "free"], "title": "destroy applies the stop policy"},
